@@ -776,6 +776,43 @@ def _clear_inv(p: Poly, table: Dict[str, Poly]) -> Poly:
 def _integrands(u: Unit) -> Dict[str, ast.AST]:
     """branch label -> integrand expression of the nested `integrand(w)` definitions."""
     out = {}
+    # one-expression helper integrands defined next to `integrand` (`def h(w): return E`):
+    # `integrand = h` makes h the integrand of that branch, `h(w)` inside an integrand is
+    # written out
+    helpers = {f.name: f for f in ast.walk(u.node) if isinstance(f, ast.FunctionDef)
+               and f is not u.node and f.name != "integrand" and len(f.args.args) == 1
+               and len([b for b in f.body if not (isinstance(b, ast.Expr)
+                                                  and isinstance(b.value, ast.Constant))]) == 1
+               and isinstance(f.body[-1], ast.Return) and f.body[-1].value is not None}
+
+    def write_out(e: ast.AST) -> ast.AST:
+        import copy
+
+        class Inline(ast.NodeTransformer):
+            def visit_Call(self, node):
+                self.generic_visit(node)
+                if isinstance(node.func, ast.Name) and node.func.id in helpers \
+                        and len(node.args) == 1 and not node.keywords:
+                    h = helpers[node.func.id]
+                    pn = h.args.args[0].arg
+                    arg = node.args[0]
+
+                    class Sub(ast.NodeTransformer):
+                        def visit_Name(self, n):
+                            if n.id == pn and isinstance(n.ctx, ast.Load):
+                                return copy.deepcopy(arg)
+                            return n
+                    return ast.copy_location(Sub().visit(copy.deepcopy(h.body[-1].value)), node)
+                return node
+        r = Inline().visit(copy.deepcopy(e))
+        ast.fix_missing_locations(r)
+        return r
+    for st in ast.walk(u.node):
+        if isinstance(st, ast.Assign) and len(st.targets) == 1 and dotted(st.targets[0]) == "integrand" \
+                and isinstance(st.value, ast.Name) and st.value.id in helpers:
+            ctx = branch_context(u.node, st)
+            zero_t = any(br for (t, br) in ctx if "temperature" in norm(t) and "== 0" in norm(t))
+            out["T=0" if zero_t else "T>0"] = helpers[st.value.id].body[-1].value
     for fn in [x for x in ast.walk(u.node) if isinstance(x, ast.FunctionDef) and x.name == "integrand"]:
         ctx = branch_context(u.node, fn)
         zero_t = any(br for (t, br) in ctx if "temperature" in norm(t) and "== 0" in norm(t))
@@ -783,7 +820,7 @@ def _integrands(u: Unit) -> Dict[str, ast.AST]:
         rets = [x for x in ast.walk(fn) if isinstance(x, ast.Return)]
         assigns = [x for x in ast.walk(fn) if isinstance(x, ast.Assign)]
         if not assigns and len(rets) == 1:
-            out[label0] = rets[0].value
+            out[label0] = write_out(rets[0].value)
             continue
         returned = {r.value.id for r in rets if isinstance(r.value, ast.Name)}
         for a in assigns:
@@ -796,7 +833,7 @@ def _integrands(u: Unit) -> Dict[str, ast.AST]:
                 small = _small_branch(gt)
                 exact = guard[0] if small is None else (guard[0] != small)
                 out[f"{label0}/{'guarded' if exact else 'overflow'}"] = \
-                    _inline_locals(fn, a, returned)
+                    write_out(_inline_locals(fn, a, returned))
     return out
 
 
